@@ -209,6 +209,29 @@ def tie(ctx, model_ok=True):
             terms.append('{| jc_indent := ' + ind + '; jc_ascii := ' + ('true' if ascii_ else 'false')
                          + '; jc_tree := ' + tree + '; jc_expect := ' + exp + ' |}')
             info.append((repr(v)[:80], indent, ascii_))
+    # an aborted dump (shared sub-object: aliases are not supported by JSON) must not disturb later dumps,
+    # of the same function or of a new one
+    probes = [{'a': [1, 2], 'b': 'x'}, [1, [2, [3]]], 'plain', {'k': {'k': {}}}]
+    before = [dumps(p) for p in probes]
+    shared = [1, 2]
+    for bad_value in ({'a': shared, 'b': shared}, [shared, shared], {'x': [shared], 'y': {'z': shared}}):
+        try:
+            dumps(bad_value)
+            aborted = False
+        except RuntimeError:
+            aborted = True
+        res['evaluations'] += 1
+        for fn_name, fn in (('same function', dumps), ('new function', yatiml.dumps_json_function())):
+            for p, b in zip(probes, before):
+                try:
+                    now = fn(p)
+                except Exception as e:      # noqa
+                    now = repr(e)
+                res['evaluations'] += 1
+                if now != b:
+                    res['failing'].append({'signature': 'state-leak-after-aborted-dump',
+                                           'what': f'after a dump aborted by an alias ({bad_value!r}, aborted={aborted}), {fn_name} writes {now!r} for {p!r} instead of {b!r}',
+                                           'case': {'value': repr(p), 'indent': None, 'ensure_ascii': True, 'after_abort': repr(bad_value)}})
     res['distinct_nontrivial'] = len(nontriv)
     res['samples'] = [{'value': info[i][0], 'indent': info[i][1], 'ensure_ascii': info[i][2]} for i in (7, len(info) // 2, len(info) - 5)]
     bad = nodeops.eval_shards('C07', terms, per_shard=500, header=HEADER, fn='json_mismatches', ctype='jcase')
@@ -226,6 +249,14 @@ def replay(case):
     import yatiml
     dumps = yatiml.dumps_json_function()
     v = eval(case['value'], {'datetime': datetime, 'inf': math.inf, 'nan': math.nan})
+    if case.get('after_abort'):
+        want = dumps(v)
+        shared = [1, 2]
+        try:
+            dumps({'a': shared, 'b': shared})
+        except RuntimeError:
+            pass
+        return dumps(v) != want or yatiml.dumps_json_function()(v) != want
     text = dumps(v, indent=case['indent'], ensure_ascii=case['ensure_ascii'])
     o = oracle(v, case['indent'], case['ensure_ascii'], text)
     if o:
